@@ -178,6 +178,17 @@ class ShortReadStream(io.RawIOBase):
         return n
 
 
+def pre_encode(raw: bytes, coding: str) -> bytes:
+    """Body as a peer that is not aiohttp's writer would send it: already content-coded."""
+    if coding == "gzip":
+        c = zlib.compressobj(wbits=16 + zlib.MAX_WBITS)
+        return c.compress(raw) + c.flush()
+    return zlib.compress(raw)
+
+
+ENC_TOKENS = {"gzip": ("gzip", "GZip", "GZIP", "Gzip"), "deflate": ("deflate", "Deflate", "DEFLATE", "deFlate")}
+
+
 def make_fault(name):
     """The exception a failing body source raises."""
     if name == "OSError":
@@ -561,7 +572,10 @@ class Bed:
         headers = CIMultiDict([(k, v) for k, v in rs.get("headers", [])])
         b = rs.get("body") or {"pat": "text", "size": 0, "seed": 0}
         raw = gen_bytes(b["pat"], b["size"], b["seed"])
-        if kind == "fixed":
+        if kind == "fixed" and rs.get("pre_encoded"):
+            headers.add("Content-Encoding", rs["pre_encoded"]["token"])
+            resp = web.Response(body=pre_encode(raw, rs["pre_encoded"]["coding"]), status=status, reason=reason, headers=headers)
+        elif kind == "fixed":
             resp = web.Response(body=raw if (raw or not rs.get("none_body")) else None, status=status, reason=reason, headers=headers)
         elif kind == "text":
             resp = web.Response(text=gen_text(b["size"], b["seed"]), status=status, reason=reason, headers=headers)
@@ -680,7 +694,10 @@ class Bed:
             return kw
         if k in ("bytes", "bytearray", "memoryview", "bytesio", "file", "agen"):
             raw = gen_bytes(b["pat"], b["size"], b["seed"])
-            if k == "bytes":
+            if k == "bytes" and rq.get("pre_encoded"):
+                kw["data"] = pre_encode(raw, rq["pre_encoded"]["coding"])
+                kw.setdefault("headers", CIMultiDict()).add("Content-Encoding", rq["pre_encoded"]["token"])
+            elif k == "bytes":
                 kw["data"] = raw
             elif k == "bytearray":
                 kw["data"] = bytearray(raw)
@@ -1292,16 +1309,6 @@ def _effective_coding(case):
     return comp if comp not in (None, "identity") else None
 
 
-def _sig_bodiless_compression_flush(case, params):
-    """HEAD / 204 / 304 answered through the StreamWriter's compressor (StreamResponse, payload body, chunked or
-    file response with a non-identity coding): the compressor's flush bytes follow the head."""
-    rq, rs = case.get("req") or {}, case.get("resp") or {}
-    bodiless = rq.get("method", "").upper() == "HEAD" or rs.get("status", 200) in EMPTY_STATUS
-    through_writer = rs.get("kind") in ("stream", "payload", "file") or bool(rs.get("chunked"))
-    return (bodiless and through_writer and _effective_coding(case) is not None
-            and case.get("viol") in ("second-exception", "second-response", "second-hang", "reuse", "client-exception"))
-
-
 DESYNC = ("hang", "stall", "reuse", "second-response", "second-exception", "second-hang", "server-error-log",
           "keepalive-disagree", "not-quiescent")
 
@@ -1314,7 +1321,6 @@ def _sig_h10_expect(case, params):
 SIGNATURES = {
     "h10_keepalive_close_delimited_hang": _sig_h10_close_delimited,
     "h10_expect_continue": _sig_h10_expect,
-    "bodiless_compression_flush": _sig_bodiless_compression_flush,
 }
 
 
@@ -1474,7 +1480,11 @@ def gen_req(rng):
             rq["chunked"] = True
         elif rng.random() < 0.06:
             rq["chunked"] = False         # "don't use chunked encoding": Content-Length when the size is known
-        if k in ("bytes", "str", "agen", "bytesio", "bytearray") and rng.random() < 0.15 and rq.get("chunked") is None:
+        if k == "bytes" and rng.random() < 0.1 and not any(h[0].lower() == "content-encoding" for h in rq["headers"]):
+            coding = rng.choice(("gzip", "deflate"))
+            rq["pre_encoded"] = {"coding": coding, "token": rng.choice(ENC_TOKENS[coding])}
+        if k in ("bytes", "str", "agen", "bytesio", "bytearray") and rng.random() < 0.15 and rq.get("chunked") is None \
+                and not rq.get("pre_encoded"):
             if b.get("size", 1) > 0:
                 rq["compress"] = rng.choice(("deflate", "gzip", True))
         if rng.random() < 0.12 and not b.get("fault"):
@@ -1541,7 +1551,12 @@ def gen_resp(rng, rq):
         rs["chunk_size"] = rng.choice((256 * 1024, 4096, 65536, 100))
         if b["size"] > 70000 and rs["chunk_size"] == 100:
             rs["chunk_size"] = 4096
-    if kind not in ("exc",) and rng.random() < 0.18 and not (kind == "stream" and rs.get("content_length")):
+    if kind == "fixed" and not rs.get("none_body") and rng.random() < 0.1:
+        coding = rng.choice(("gzip", "deflate"))
+        rs["pre_encoded"] = {"coding": coding, "token": rng.choice(ENC_TOKENS[coding])}
+        rs["headers"] = [h for h in rs["headers"] if h[0].lower() != "content-encoding"]
+    if kind not in ("exc",) and rng.random() < 0.18 and not (kind == "stream" and rs.get("content_length")) \
+            and not rs.get("pre_encoded"):
         rs["compression"] = rng.choice(("auto", "auto", "deflate", "gzip", "identity"))
     if kind in ("fixed", "text", "json", "payload") and rng.random() < 0.06 and rq.get("version") != "1.0" \
             and not any(h[0].lower() == "content-length" for h in rs["headers"]):
@@ -1756,7 +1771,7 @@ def in_model_subset(case):
     rq = case["req"]
     b = rq.get("body") or {"kind": "none"}
     if rq.get("compress") or rq.get("expect100") or rq.get("cookies") or rq.get("skip_auto") or b.get("fault") \
-            or case.get("eager_second"):
+            or case.get("eager_second") or rq.get("pre_encoded"):
         return False
     if b["kind"] not in ("none", "bytes", "bytearray", "memoryview", "agen", "bytesio"):
         return False
